@@ -10,6 +10,7 @@ From Coq Require Import Permutation.
 From ACV Require Import Base.Strs Model.Graph Model.PathGrammar Model.PathSem Model.Dnf Model.Rules Model.TemplatesRef.
 From ACV Require Import Proofs.DnfProofs Proofs.DnfFuel Proofs.RulesProofs Extracted.Templates.
 From ACV Require Import Model.Report Model.Engine Model.Yaml Model.ProfileParser Proofs.TextSemantics.
+From ACV Require Import Model.DnfSorted Model.Compile Proofs.DnfSortedProofs Proofs.CompileProofs.
 
 (* ties: the snippets whose meaning Rules.Fpos / Rules.Fneg / Dnf.fires transcribe *)
 Theorem C01_tie_atom_templates :
@@ -96,6 +97,27 @@ Theorem C01_classical_refuted_D2 :
   /\ compl_ok d2_graph true d2_form "n0" = false.
 Proof. exact classical_refuted_d2. Qed.
 
+(* The TEXT of the module (Model/Compile.v, compared byte for byte with generator.Generate in the C07 run): the branches the
+   text generator wraps into rules are, rule for rule, those of the failure DNF under the operand order of the Go code - a
+   permutation - so for every reading of the atoms and every value of the name counter they report exactly the nodes at which
+   the rule's literal-level reading is false. *)
+Theorem C01_operand_sort_only_permutes : forall l : list crule, Permutation (sort_rules l) l.
+Proof. exact sort_rules_perm. Qed.
+Theorem C01_text_is_generated_from_the_failure_dnf : forall fuel r c,
+  match gen fuel r c with
+  | Some (ts, _) => dispS sort_rules fuel r = Some (abs_ts ts)
+  | None => dispS sort_rules fuel r = None
+  end.
+Proof. exact gen_abs. Qed.
+Theorem C01_sorted_dnf_meets_the_specification : forall (A N P : Type) Fpos Fneg children (srt : list (rule A P) -> list (rule A P)),
+  (forall l, Permutation (srt l) l) ->
+  forall fuel r gs, okg r -> dispS srt fuel r = Some gs -> good (N:=N) Fpos Fneg children r gs.
+Proof. exact mainS. Qed.
+Theorem C01_text_branches_report_the_failing_nodes : forall (N : Type) Fpos Fneg children fuel r c ts c',
+  okg r -> gen fuel r c = Some (ts, c') ->
+  forall n : N, reported Fpos Fneg children (abs_ts ts) n = negb (rs Fpos Fneg children true r n).
+Proof. exact gen_meaning. Qed.
+
 (* non-vacuity: a negated if/then/else over counts inside a nested constraint, on a concrete graph *)
 Definition ex_g : graph :=
   [ {| nid := "n0"; nprops := [("@type", [VStr "T"]); ("c", [VRef "n1"; VRef "n2"])] |};
@@ -121,6 +143,10 @@ Print Assumptions C01_iff.
 Print Assumptions C01_results.
 Print Assumptions C01_from_text.
 Print Assumptions C01_from_text_classical.
+Print Assumptions C01_operand_sort_only_permutes.
+Print Assumptions C01_text_is_generated_from_the_failure_dnf.
+Print Assumptions C01_sorted_dnf_meets_the_specification.
+Print Assumptions C01_text_branches_report_the_failing_nodes.
 Print Assumptions C01_counts_complementary.
 Print Assumptions C01_spelling.
 Print Assumptions C01_rewritings.
